@@ -143,6 +143,7 @@ package nflog
 //@   after call errors.Is assume res0 == isEOF(arg0)
 //@   ensures [only-a-clean-end-of-input-completes-the-state] result1 == nil ==> called("protodelim.UnmarshalFrom") && isEOF(ret("protodelim.UnmarshalFrom"))
 //@   ensures [any-other-read-error-is-reported] called("protodelim.UnmarshalFrom") && ret("protodelim.UnmarshalFrom") != nil && !isEOF(ret("protodelim.UnmarshalFrom")) ==> result1 != nil
+//@   ensures [only-a-read-error-or-a-malformed-record-fails-the-decode] result1 != nil ==> result1 == ErrInvalidState || (called("protodelim.UnmarshalFrom") && result1 == ret("protodelim.UnmarshalFrom") && !isEOF(result1))
 //@   ensures [a-decoded-entry-is-filed] result1 == nil && countnil0("protodelim.UnmarshalFrom") > 0 ==> len(result0) > 0
 //@   loop 1 invariant countnil0("protodelim.UnmarshalFrom") >= 0 && (countnil0("protodelim.UnmarshalFrom") > 0 ==> len(st) > 0)
 //@   noeffect bufio.NewReader errors.Is
